@@ -109,6 +109,9 @@ GEN_TEMPLATES = [
     # - cfunc-to-py wrappers, ctuple/struct/array conversions, memoryview slices, enum-to-py - are named after a type
     # identifier; any per-process memo of those names shows up when two such modules are compiled in one process)
     "cimport cython\n\ncdef struct Pt:\n    int x\n    double y\n\ncpdef enum Colour:\n    RED = 1\n    GREEN = %(v)d + 1\n\ncdef int cb(int a, double b):\n    return a + <int>b + %(v)d\n\ncdef (int, double) pair(int a):\n    return a, a * 0.5\n\ndef zoo(int n, double[:, ::1] mv, object o):\n    cdef Pt p = Pt(n, 2.0)\n    cdef int[4] arr = [1, 2, 3, n]\n    cdef (int, double) t = pair(n)\n    cdef object f = cb\n    cdef int[:] row = arr\n    cdef Pt q = o\n    return p, arr, t, f, mv[0, 0], row[1], q, Colour.RED, <Colour>n\n\ndef gz(list l):\n    cdef int i\n    return sum(i * %(v)d for i in l), (x for x in l)\n\ndef merges(a, b, A, B, h):\n    # star/double-star merges: each pulls in several utility-code helpers at once\n    return [*a, %(v)d, *b], (*a, *b), {*a, *b}, {**A, 'k': %(v)d, **B}, h(*a, %(v)d, *b, **A, k=1, **B)\n",
+    # OpenMP sections: temporaries of a prange / parallel body are collected in a set and emitted as private() clauses and as a
+    # cleanup block after the section
+    "from cython.parallel cimport prange, parallel\n\ndef par(int n, object f, object g):\n    cdef int i\n    cdef long total = 0\n    for i in prange(n, nogil=True):\n        total += i * %(v)d\n        with gil:\n            f(i, g(i), str(i)); g(f(i), [i, i + 1], {'a': i, 'b': (i, %(v)d)})\n    return total\n\ndef par2(int n, object f):\n    cdef int i\n    cdef double acc = 0\n    with nogil, parallel():\n        for i in prange(n):\n            acc += i\n            with gil:\n                f(i)(f(i + 1), f(str(i)), k=f(%(v)d))\n    return acc\n",
     "import cython\n\n@cython.cclass\nclass B:\n    v: cython.int\n    def __init__(self):\n        self.v = %(v)d\n\n@cython.cfunc\ndef helper(a: cython.int, b: cython.double) -> cython.double:\n    return a * b\n\ndef lam():\n    return [lambda x, i=i: x + i for i in range(3)], {n: n*n for n in (1, 2, %(v)d)}\n",
 ]
 
